@@ -158,3 +158,30 @@ func Run[T any, R any](ins [][]T, opt Opts, build func([]<-chan T) []<-chan R) R
 func Run1[T any, R any](ins [][]T, opt Opts, build func([]<-chan T) <-chan R) Result[R] {
 	return Run(ins, opt, func(cs []<-chan T) []<-chan R { return []<-chan R{build(cs)} })
 }
+
+func caseRoot(f func(), done *int32) {
+	f()
+	atomic.StoreInt32(done, 1)
+}
+
+// Call runs f (any blocking library call) in its own goroutine and waits for it with the goroutine
+// census: it returns "deadlock" if f has not returned and every goroutine started since the call
+// is parked for ever. It holds the same one-case-at-a-time lock as Run.
+func Call(f func()) (verdict, detail string) {
+	mu.Lock()
+	defer mu.Unlock()
+	base := census.Baseline()
+	var done int32
+	go caseRoot(f, &done)
+	for spin := 0; atomic.LoadInt32(&done) == 0; spin++ {
+		if spin < 3000 {
+			runtime.Gosched()
+			continue
+		}
+		if stuck, rel := base.StableStuck(); stuck && atomic.LoadInt32(&done) == 0 {
+			return "deadlock", fmt.Sprintf("%d goroutines parked for ever, the call has not returned:\n%s", len(rel), census.Describe(rel, 6))
+		}
+		time.Sleep(500 * time.Microsecond)
+	}
+	return "ok", ""
+}
